@@ -12,6 +12,7 @@ package fas
 //@ pure
 
 //@ func Filter
+//@ terminates
 //@ property C08 C06
 //@ requires [f-callable] forall(k, int, implies(0 <= k && k < len(x), callpre(f, x[k])))
 //@ assigns FilterSrc, FilterPos
